@@ -189,3 +189,60 @@ func VH_C10_TransportTLS() {
 	vhGuardCheck(false)
 	vhAssert(cfg.ServerName == "", "the-programs-tls-config-is-not-modified")
 }
+
+// C10-H6: the Reader's mutex-protected fields (version, offset, lag, closed) under the synchronised Reader methods:
+// ReadMessage / FetchMessage, Offset, Lag, SetOffset, Stats, Close, each with the background reader goroutine alive.
+func VH_C10_Reader() {
+	vhConcreteClock(true)
+	const n = 2
+	var set []byte
+	for i := 0; i < n; i++ {
+		set = append(set, vhEncMessage(int64(i), 1, 0, 1600000000000, nil, vhBytes("value", 2))...)
+	}
+	meta := append(vhApiVersionsFrame(1, []vhApiRange{{int16(metadata), 0, 1}}), vhMetadataResponse(2, 1, "t", 0, 0, 1)...)
+	var s []byte
+	s = append(s, vhListOffsetsFrame(1, "t", 0, 0, -1, 0)...)
+	s = append(s, vhListOffsetsFrame(2, "t", 0, 0, -1, int64(n))...)
+	s = append(s, vhListOffsetsFrame(3, "t", 0, 0, -1, 0)...)
+	s = append(s, vhListOffsetsFrame(4, "t", 0, 0, -1, int64(n))...)
+	s = append(s, vhApiVersionsFrame(5, []vhApiRange{{int16(fetch), 0, 2}})...)
+	s = append(s, vhFetchResponse(6, 2, 0, "t", 0, 0, int64(n), set)...)
+	leader := &vhFakeConn{data: s, gate: make(chan struct{}), gateAfter: len(s)}
+	conns := []*vhFakeConn{{data: meta}, leader}
+	dials := 0
+	d := &Dialer{DialFunc: func(c context.Context, network, address string) (net.Conn, error) {
+		if dials >= len(conns) {
+			return nil, vhErrCoordinator
+		}
+		fc := conns[dials]
+		dials++
+		return fc, nil
+	}}
+	r := NewReader(ReaderConfig{Brokers: []string{"b:9092"}, Topic: "t", Partition: 0, Dialer: d, MinBytes: 1, MaxBytes: 100000, MaxWait: time.Second,
+		ReadLagInterval: -1})
+	vhGuarded(r, "version", &r.mutex)
+	vhGuarded(r, "offset", &r.mutex)
+	vhGuarded(r, "lag", &r.mutex)
+	vhGuarded(r, "closed", &r.mutex)
+	vhGuardCheck(true)
+	ctx := context.Background()
+	m, err := r.ReadMessage(ctx)
+	vhAssert(err == nil && m.Offset == 0, "reader-delivers")
+	_ = r.Offset()
+	_ = r.Lag()
+	_ = r.Stats()
+	m, err = r.FetchMessage(ctx)
+	vhAssert(err == nil && m.Offset == 1, "reader-delivers-next")
+	serr := r.SetOffset(0)
+	vhAssert(serr == nil, "set-offset-ok")
+	vhSettle()
+	_ = r.Offset()
+	_ = r.Stats()
+	closedCh := make(chan struct{})
+	go func() { r.Close(); close(closedCh) }()
+	<-closedCh
+	_ = r.Offset()
+	_ = r.Lag()
+	vhGuardCheck(false)
+	vhReach("c10-reader")
+}
